@@ -98,6 +98,20 @@ fn c11(rng: &mut Rng, out: &mut Fails) {
         let d = catch(|| Matrix::new(g.clone(), n as i32, n as i32).det());
         let want = det_int(&g, n);
         match d { None => fail(out, "Matrix::det", "C11.det.no_panic", ginp.clone(), "panic".into(), format!("{}", want)), Some(d) => if !close(d, want, 1e-9) { fail(out, "Matrix::det", "C11.det", ginp.clone(), format!("{}", d), format!("{}", want)) } }
+        // scale equivariance, exact for a power of two (no underflow at these sizes): same pivots, same multipliers, U scaled, det scaled by s^n
+        for sc in [(2.0f64).powi(-60), (2.0f64).powi(40)] {
+            let gs: Vec<f64> = g.iter().map(|v| v * sc).collect();
+            let base = catch(|| lu(&g));
+            for which in 0..2 { let f = if which == 0 { "lu" } else { "Matrix::lu" };
+                let r = catch(|| if which == 0 { lu(&gs) } else { let (m, p) = Matrix::new(gs.clone(), n as i32, n as i32).lu(); (m.data.v, p) });
+                if let (Some((l0, p0)), Some((ls, ps))) = (&base, &r) {
+                    let want: Vec<f64> = (0..n * n).map(|k| if k % n < k / n { l0[k] } else { l0[k] * sc }).collect();
+                    if ps != p0 || !same_vec(ls, &want) { fail(out, f, "C11.lu.reconstruct", format!("n={} A={:?} (A = {} * {:?})", n, gs, sc, g), format!("{:?} {:?}", ls, ps), format!("{:?} {:?}", want, p0)); }
+                } }
+            let ds = catch(|| Matrix::new(gs.clone(), n as i32, n as i32).det());
+            if let (Some(d0), Some(ds)) = (d, ds) { let wants = d0 * sc.powi(n as i32);
+                if !((ds - wants).abs() <= 1e-12 * wants.abs()) { fail(out, "Matrix::det", "C11.det", format!("n={} A={:?} (A = {} * {:?}, whose determinant is {})", n, gs, sc, g, d0), format!("{}", ds), format!("{}", wants)); } }
+        }
         // triangular solves
         let lt: Vec<f64> = (0..n * n).map(|k| { let (i, j) = (k / n, k % n); if j > i { 0. } else if i == j { 1. + rng.below(4) as f64 } else { rng.int(-3, 3) } }).collect();
         let xt = rng.ivec(n, -3, 3); let bl = matvec(&lt, &xt, n);
@@ -106,6 +120,12 @@ fn c11(rng: &mut Rng, out: &mut Fails) {
         match catch(|| backward_substitution(&ut, &bu)) { None => fail(out, "backward_substitution", "C11.bwd", format!("U={:?}", ut), "panic".into(), format!("{:?}", xt)), Some(x) => if x.iter().zip(&xt).any(|(a, b)| !close(*a, *b, 1e-9)) { fail(out, "backward_substitution", "C11.bwd.triangular", format!("U={:?} b={:?}", ut, bu), format!("{:?}", x), format!("{:?}", xt)) } }
         if out.len() > 6 { return; }
     }
+    // not positive definite in a way no `<= 0` test sees: a NaN pivot (NaN on the diagonal, or inf * 0 at extreme scale) must be rejected, never returned as a factor
+    for b in [vec![f64::NAN], vec![f64::NAN, 0., 0., 1.], vec![1., 0., 0., f64::NAN], vec![1e-320, 0., 1e200, 0., 1., 0., 1e200, 0., 1.]] {
+        let n = (b.len() as f64).sqrt() as usize;
+        for which in 0..2 { let f = if which == 0 { "cholesky" } else { "Matrix::cholesky" };
+            let r = catch(|| if which == 0 { cholesky(&b) } else { Matrix::new(b.clone(), n as i32, n as i32).cholesky().data.v });
+            if let Some(l) = r { if l.iter().any(|v| !v.is_finite()) { fail(out, f, "C11.chol.reject_non_pd", format!("{:?}", b), format!("{:?}", l), "panic (non-finite factor returned)".into()); } } } }
     for perm in [vec![1, 2, 3, 0], vec![1, 0, 3, 2], vec![2, 0, 1], vec![1, 2, 3, 4, 0], vec![0, 1, 2], vec![3, 2, 1, 0]] {
         let n = perm.len(); let mut p = perm.clone(); let mut swaps = 0; for i in 0..n { while p[i] as usize != i { let j = p[i] as usize; p.swap(i, j); swaps += 1; } }
         let want = if swaps % 2 == 0 { 1 } else { -1 };
@@ -161,7 +181,10 @@ fn c07(rng: &mut Rng, out: &mut Fails) {
             let g = romberg(f, a, b, eps, k + 1);
             let prim = |x: f64| x.powi(d + 1) / (d as f64 + 1.) - 2. * x.powi(d) / d as f64 + x * x / 2.;
             let w = prim(b) - prim(a); let sc = 1. + a.abs().max(b.abs()).powi(d + 1);
-            if (g - w).abs() > 1e-9 * sc { fail(out, "romberg", "C07.romberg.exact", format!("degree {} polynomial on [{}, {}] levels {} eps {}", d, a, b, k + 1, eps), format!("{}", g), format!("{}", w)); } } }
+            if (g - w).abs() > 1e-9 * sc { fail(out, "romberg", "C07.romberg.exact", format!("degree {} polynomial on [{}, {}] levels {} eps {}", d, a, b, k + 1, eps), format!("{}", g), format!("{}", w)); }
+            // exactly k levels and a tolerance that is never met: the value after the last level is the full diagonal entry R[k-1][k-1]
+            if eps == 0.0 { let g0 = romberg(f, a, b, 0.0, k);
+                if (g0 - w).abs() > 1e-9 * sc { fail(out, "romberg", "C07.romberg.exact", format!("degree {} polynomial on [{}, {}] levels {} eps 0 (levels exhausted)", d, a, b, k), format!("{}", g0), format!("{}", w)); } } } }
     }
     // romberg early-exit trap: integrand collinear at a, mid, b
     let g = romberg(|x| x.powi(4) - x * x, -1., 1., 1e-6, 8); if !close(g, -4. / 15., 1e-6) { fail(out, "romberg", "C07.romberg.tolerance", "x^4 - x^2 on [-1,1], eps 1e-6, 8 levels".into(), format!("{}", g), format!("{}", -4. / 15.)); }
